@@ -38,6 +38,10 @@ Do(name, e) ==
     [] name = "StartPs" -> StartPs(e.x)
     [] name = "NewSub"  -> NewSub(e.x)
     [] name = "DelSub"  -> DelSub(e.x)
+    [] name = "HlsOpen"   -> HlsOpen(e.x)
+    [] name = "HlsPoll"   -> HlsPoll(e.x) /\ act'.how = e.how
+    [] name = "HlsExpire" -> HlsExpire(e.x)
+    [] name = "HlsLinger" -> HlsLinger
     [] name = "Kick"    -> Kick(e.x)
     [] name = "Probe"   -> Probe(e.x)
     [] name = "Tick"    -> Tick
@@ -58,7 +62,8 @@ Do(name, e) ==
     [] name = "Misuse"    -> Misuse(e.x) /\ act'.how = e.how
 
 \* C03 StatOnlyAttached: the stat API lists exactly the attached network / GB28181 input and the attached subscribers
-Listed(i, s) == (IF i \in NetPubs \cup PsPubs THEN {i} ELSE {}) \cup {x \in Subs : s[x] = "in"}
+\* (HLS sessions among them), and a relay pull session exactly while it is attached
+Listed(i, s) == (IF i \in NetPubs \cup PsPubs THEN {i} ELSE {}) \cup {x \in AllSubs : s[x] = "in"}
 SeqSet(q) == {q[k] : k \in 1..Len(q)}
 
 TraceStep ==
@@ -78,6 +83,7 @@ TraceStep ==
                          /\ (("stat" \in DOMAIN e /\ ~down') =>     \* (after a shutdown the listing is moot)
                                /\ e.stat.exists = grp'
                                /\ (grp' => SeqSet(e.stat.listed) = Listed(inp', ss'))
+                               /\ ("pull" \in DOMAIN e.stat => e.stat.pull = (inp' = "pull"))   \* StatPull: the attached pull session, and only that
                                /\ Len(e.stat.listed) = Cardinality(SeqSet(e.stat.listed)))
              IN /\ failed' = ~good
                 /\ IF good THEN TRUE ELSE PrintT("@REJ@" \o ToString(l))
